@@ -246,6 +246,9 @@ def step_level(ctx):
 
 def run(ctx):
     step_level(ctx)
+    # 'exceptions are never swallowed': the context manager around every part lets every exception through (truthy, falsy, BaseException)
+    from harness.props import c12
+    c12.capture_protocol(ctx)
     cases = build_cases(ctx)
     chunks = [cases[i:i + 150] for i in range(0, len(cases), 150)]
     results = [r for ch in common.pmap(_worker, chunks) for r in ch]
@@ -281,6 +284,9 @@ def run(ctx):
 
 def replay(path):
     d = json.load(open(path))
+    if d.get('kind') == 'capture-protocol':
+        from harness.props import c12
+        return c12.replay_capture_protocol(d, path, 'C03')
     if 'doctest' not in d:
         from xdoctest import checker
         t = d.get('text')
